@@ -63,6 +63,7 @@ func (fs *filestore) Get(baseUrl HttpBaseUrl, bucket string, filename string) (*
 	if obj == nil {
 		return nil, nil, nil
 	}
+	verifPoint("filestore.Get.afterMeta", bucket, filename)
 
 	f := fs.filename(bucket, filename)
 	contents, err := os.ReadFile(f)
@@ -98,6 +99,7 @@ func (fs *filestore) Add(bucket string, filename string, contents []byte, meta *
 	// Force a new modification time, since this is what Generation is based on.
 	now := time.Now().UTC()
 	_ = os.Chtimes(f, now, now)
+	verifPoint("filestore.Add.afterContent", bucket, filename)
 
 	InitScrubbedMeta(meta, filename)
 	meta.Metageneration = 1
